@@ -142,6 +142,11 @@ class Gen:
             return ["add", self.atom8(sc, sigonly), ["c", rng.choice([1, 2, 3, 5, 16, 100]), 8]]
         if r < 0.90:
             return ["add", self.expr8(sc, depth - 1, sigonly, False), self.atom8(sc, sigonly)]
+        if rng.random() < 0.4:
+            self.stat("select-with")
+            subj = ["obj", rng.choice(["x", "y", "o0", "s0"] + ([] if (sigonly or sc.get("sigonly")) else ["v0"]))]
+            pats = rng.sample(range(6), rng.choice([1, 2, 3]))
+            return ["selw", subj, [[p, self.expr8(sc, depth - 1, sigonly, False)] for p in pats], self.expr8(sc, depth - 1, sigonly, False)]
         self.stat("ifexpr")
         return ["ife", self.cond(sc, sigonly), self.expr8(sc, depth - 1, sigonly, False), self.expr8(sc, depth - 1, sigonly, False)]
 
@@ -469,19 +474,37 @@ class Gen:
                 out.append(self.assign(sc))
         return out
 
+    def arm(self, sc, depth, what):
+        """body of one arm of a conditional construct: statements assigning some of the targets, or nothing at all
+        (`pass`), or statements removed / kept by a compile-time option of the design (`if OPT_F:` / `if OPT_T:`)"""
+        rng = self.rng
+        s2 = self.sub(sc)
+        s2["scope_top"] = False
+        r = rng.random()
+        if r < 0.16:
+            self.stat(f"empty-arm-pass:{what}")
+            return [["pass"]]
+        body = self.block(s2, depth) or [self.assign(s2)]
+        if r < 0.28:
+            self.stat(f"empty-arm-compile-time-false:{what}")
+            return [["cif", False, body]]
+        if r < 0.34:
+            self.stat(f"arm-compile-time-true:{what}")
+            return [["cif", True, body]]
+        if r < 0.40:
+            # part of the arm removed at compile time, the rest stays
+            return [["cif", False, body], self.assign(s2)]
+        return body
+
     def gen_if(self, sc, depth, fn=None):
         rng = self.rng
         nbr = rng.choice([1, 1, 2, 2, 3])
         brs = []
         for _ in range(nbr):
-            s2 = self.sub(sc)
-            s2["scope_top"] = False
-            brs.append([self.cond(sc), self.block(s2, depth - 1)])
+            brs.append([self.cond(sc), self.arm(sc, depth - 1, "if")])
         els = None
         if rng.random() < 0.6:
-            s2 = self.sub(sc)
-            s2["scope_top"] = False
-            els = self.block(s2, depth - 1)
+            els = self.arm(sc, depth - 1, "else")
         self.stat("if" if nbr == 1 else "if-elif")
         return ["if", brs, els]
 
@@ -493,14 +516,10 @@ class Gen:
             subj, pats = ["obj", rng.choice(["x", "y", "v0", "o0", "s0"])], rng.sample(range(6), rng.choice([1, 2, 3]))
         cases = []
         for p in pats:
-            s2 = self.sub(sc)
-            s2["scope_top"] = False
-            cases.append([p, self.block(s2, depth - 1) or [self.assign(sc)]])
+            cases.append([p, self.arm(sc, depth - 1, "case")])
         d = None
-        if rng.random() < 0.55:
-            s2 = self.sub(sc)
-            s2["scope_top"] = False
-            d = self.block(s2, depth - 1) or [self.assign(sc)]
+        if rng.random() < 0.6:
+            d = self.arm(sc, depth - 1, "default")
         self.stat("match-default" if d else "match-nodefault")
         return ["match", subj, cases, d]
 
@@ -520,12 +539,10 @@ class Gen:
         s2 = self.sub(sc)
         s2["scope_top"] = False
         s2["lv"] = True
-        body = self.block(s2, max(depth - 1, 0)) or [self.assign(s2)]
+        body = self.arm(s2, max(depth - 1, 0), "for-break")
         els = None
         if rng.random() < 0.6:
-            s3 = self.sub(sc)
-            s3["scope_top"] = False
-            els = self.block(s3, max(depth - 1, 0)) or [self.assign(sc)]
+            els = self.arm(sc, max(depth - 1, 0), "for-else")
         self.stat("for-break-else" if els else "for-break")
         return ["forbrk", rng.choice([2, 3, 4]), self.lv_cond(sc), body, els]
 
@@ -709,6 +726,9 @@ def py_expr(e, ent, lv="i"):
         return f"({py_expr(e[1], ent, lv)} + {py_expr(e[2], ent, lv)})"
     if k == "ife":
         return f"({py_expr(e[2], ent, lv)} if {py_expr(e[1], ent, lv)} else {py_expr(e[3], ent, lv)})"
+    if k == "selw":
+        brs = ", ".join(f"{p}: {py_expr(v, ent, lv)}" for p, v in e[2])
+        return f"cohdl.select_with({py_expr(e[1], ent, lv)}, {{{brs}}}, default={py_expr(e[3], ent, lv)})"
     if k == "nb":
         return f"(~{py_expr(e[1], ent, lv)})"
     if k == "andb":
@@ -771,6 +791,11 @@ def py_block(stmts, ind, ent, lv="i"):
             out.append(f"{pad}for {lv2} in range({s[1]}):")
             out += py_block(s[2], ind + 1, ent, lv2) or [f"{pad}    pass"]
             _LOOPS.pop()
+        elif k == "pass":
+            out.append(f"{pad}pass")
+        elif k == "cif":
+            out.append(f"{pad}if {'OPT_T' if s[1] else 'OPT_F'}:")
+            out += py_block(s[2], ind + 1, ent, lv) or [f"{pad}    pass"]
         elif k == "let":
             out.append(f"{pad}{s[1]} = {py_expr(s[2], ent, lv)}")
         elif k == "alias":
@@ -804,7 +829,8 @@ def py_block(stmts, ind, ent, lv="i"):
 
 
 def render_source(d):
-    out = ["import cohdl", "from cohdl import Bit, BitVector, Unsigned, Signed, Port, Signal, Variable, Array, Null", "from cohdl import std", ""]
+    out = ["import cohdl", "from cohdl import Bit, BitVector, Unsigned, Signed, Port, Signal, Variable, Array, Null", "from cohdl import std", "",
+           "OPT_T = True      # build-time options of the design", "OPT_F = False", ""]
     for j, f in enumerate(d["funcs"]):
         out.append(f"def h{j}({', '.join(['e'] + f['params'])}):")
         out += py_block(f["body"], 1, "e") or ["    pass"]
@@ -931,6 +957,12 @@ class Sx:
             return f"(add {w} {self.expr(e[1], env)} {self.expr(e[2], env)})"
         if k == "ife":
             return f"(sel {self.expr(e[1], env)} {self.expr(e[2], env)} {self.expr(e[3], env)})"
+        if k == "selw":
+            r = self.expr(e[3], env)
+            subj = self.expr(e[1], env)
+            for p, v in reversed(e[2]):
+                r = f"(sel (eq {subj} (c {p})) {self.expr(v, env)} {r})"
+            return r
         if k == "nb":
             return f"(not {self.expr(e[1], env)})"
         if k == "andb":
@@ -1005,6 +1037,11 @@ class Sx:
                     e2 = dict(env)
                     e2["__lv"] = i
                     out.append(self.block(s[2], e2))
+            elif k == "pass":
+                pass
+            elif k == "cif":
+                if s[1]:
+                    out.append(self.block(s[2], env))
             elif k in ("let", "alw"):
                 kk = self.fresh()
                 out.append(f"(cap {kk} {self.expr(s[2], env)})")
@@ -1123,7 +1160,10 @@ def seq_tokens(seq):
 
 def gen_inputs(rng, n_seq, length):
     seqs = []
-    for _ in range(n_seq):
+    # a sweep: every value 0..7 of x / y and 0..3 of idx occurs, so that every arm of a match on them (and no arm) is selected
+    off = rng.randrange(8)
+    seqs.append([[(k * 5 + off) >> j & 1 for j in range(4)] + [(k + off) % 8, (k // 2 + off) % 8, (k + k // 4) % 4] for k in range(length)])
+    for _ in range(n_seq - 1):
         p = rng.choice([0.25, 0.5, 0.75])
         small = rng.random() < 0.7
         seq = []
@@ -1204,12 +1244,10 @@ def _variants(stmts):
                     yield stmts[:i] + [["match", s[1], s[2][:j] + s[2][j + 1:], s[3]]] + stmts[i + 1:]
             for j, (p, b) in enumerate(s[2]):
                 for v in _variants(b):
-                    if v:
-                        yield stmts[:i] + [["match", s[1], s[2][:j] + [[p, v]] + s[2][j + 1:], s[3]]] + stmts[i + 1:]
+                    yield stmts[:i] + [["match", s[1], s[2][:j] + [[p, v]] + s[2][j + 1:], s[3]]] + stmts[i + 1:]
             if s[3] is not None:
                 for v in _variants(s[3]):
-                    if v:
-                        yield stmts[:i] + [["match", s[1], s[2], v]] + stmts[i + 1:]
+                    yield stmts[:i] + [["match", s[1], s[2], v]] + stmts[i + 1:]
         elif k in ("forbrk", "forret"):
             if k == "forbrk":
                 subs = [s[4]] if s[4] is not None else []
@@ -1224,6 +1262,12 @@ def _variants(stmts):
                 for v in _variants(s[4]):
                     if v or k == "forbrk":
                         yield stmts[:i] + [[k, s[1], s[2], s[3], v]] + stmts[i + 1:]
+        elif k == "cif":
+            if s[1]:
+                subs = [s[2]]
+            for v in _variants(s[2]):
+                if v:
+                    yield stmts[:i] + [["cif", s[1], v]] + stmts[i + 1:]
         elif k == "for":
             for v in _variants(s[2]):
                 if v:
@@ -1352,7 +1396,15 @@ def fixed_designs():
          [_as("n", O("o1"), C(39))]],
         ["forbrk", 3, ["eq", O("y"), ["lv", 1]], [_as("n", O("o2"), ["lv", 40])], None],
         ["match", O("x"), [[1, [_as("n", O("o3"), C(51))]], [3, [_as("n", O("o3"), C(53))]]], [_as("n", O("o3"), C(59))]],
-        ["match", O("idx"), [[0, [_as("n", O("s0"), C(60))]], [2, [_as("n", O("s0"), C(62))]]], None]], [], []))
+        ["match", O("idx"), [[0, [_as("n", O("s0"), C(60))]], [2, [_as("n", O("s0"), C(62))]]], None],
+        # arms without statements (`pass`, body removed by a build-time option) hold their targets, the default runs only
+        # when no pattern matches; arms assigning only some of the targets
+        ["match", O("y"), [[0, [["pass"]]], [1, [["cif", False, [_as("n", O("o2"), C(71))]]]], [2, [_as("n", O("o2"), C(72))]],
+                           [3, [["cif", True, [_as("n", O("o3"), C(73))]]]]], [_as("n", O("o2"), C(79)), _as("n", O("o3"), C(78))]],
+        ["match", O("idx"), [[1, [["pass"]]], [3, [_as("v", O("v1"), ["add", O("v1"), C(1)])]]], [_as("v", O("v1"), ["add", O("v1"), O("v1")]), _as("p", O("p0"), C(77))]],
+        ["match", O("x"), [[4, [["pass"]]]], None],
+        ["if", [[O("c3"), [["pass"]]], [O("c1"), [["cif", False, [_as("n", O("w0"), C(81))]]]]], [_as("n", O("w0"), C(82))]],
+        _as("n", O("bv"), ["selw", O("y"), [[0, O("x")], [2, C(91)]], C(92)])], [], []))
     # index captured at access time
     ds.append(("law:index-captured", [
         ["bind", "r1", "arr", O("vi")], ["bind", "r2", "va", O("vi")], _as("v", O("vi"), ["add", O("vi"), C(1, 2)]),
@@ -1423,7 +1475,7 @@ def chain_design():
 def signature_of(d):
     src = render_source(d)
     body = src.split("def architecture(self):")[0].split("class W(cohdl.Entity):")[0] + src.split("def proc():")[1]
-    return "c03:" + " | ".join(l.strip() for l in body.split("\n") if l.strip() and not l.startswith(("import", "from")))[:400]
+    return "c03:" + " | ".join(l.strip() for l in body.split("\n") if l.strip() and not l.startswith(("import", "from", "OPT_")))[:400]
 
 
 def run(ctx: Ctx):
